@@ -57,6 +57,14 @@ for sig,what in [("first-message-not-connect-reply:reply-written-later","connect
   ("raw-frame-after-connect-reply","ReplyWithoutQueue=true: a direct reply written after CloseDictionaryCompression goes out without the encoder")]:
     known("C11","connfirst",sig,what)
 
+known("C22","mapconverge","diverged:eph:during-subscribe:state-to-live","ephemeral (streamless) map subscribe: state is read before buffering starts and offset-less publications are dropped while the subscription is not yet flagged subscribed, so changes landing between the state read and the commit (e.g. publish b, publish a after the state page {a=a1}) are lost; the client goes live with a stale map and is told nothing")
+known("C22","mapconverge","diverged:pers:during-subscribe:stream-expired","persistent map channel, StreamTTL elapsed after a change with no later publish: a fresh subscriber whose state page was read before the change goes live past it (MapStreamRead trim detection needs at least one returned publication)")
+known("C22","mapconverge","recovered-gap:pers:stream-expired","persistent map channel: recovery join from (2, epoch) after a3@3 was published and the stream expired gets recovered=true, offset 3, no publications")
+known("C22","mapconverge","diverged:pers:during-subscribe:stream-trimmed","empty persistent map channel, StreamSize 2, client at position 0 while pa@1, pb@2, pb@3 are published: stream catch-up returns [b2, b3] (a1 trimmed) without an unrecoverable-position error because trim detection is guarded by Since.Offset > 0")
+for h in ["mediumx","mediumx-unexported"]:
+    known("C38",h,"sentinel-in-subscribe-reply","channel medium with SharedPositionSync: CheckPosition broadcasts the MaxUint64 insufficient-state sentinel while another connection is inside subscribeCmd between addSubscription and LockBufferAndReadBuffered; the sentinel is buffered and merged into that subscribe reply (offset 18446744073709551615, or a recovered publication that was never published)")
+    known("C38",h,"pub-after-unsubscribe-push","channel medium, two deviations: a false-positive position check starts an asynchronous insufficient-state unsubscribe while a broadcast has passed the flagSubscribed check and is preempted before writing; frames: pub 2 | unsub(2500) | pub 3")
+
 # ---- fixed (suppress nothing; the checks pass on the repaired tree)
 for sig,what in [("panic-extractPushData:p-header-lt3","extractPushData(\"__p__\") / \"__p__x\": header shorter than 3 bytes sliced out of range"),
   ("panic-extractPushData:d-nothing-after-prev","extractPushData(\"__d1:0::-0:\"): nothing after the previous payload, input[prevLen+1:] out of range"),
